@@ -39,7 +39,7 @@ CLAIMED = {
                 '(8) en-passant mask tables and guard; (9) every fresh en-passant store is normalised as readFEN does. Three genuine violations on the pinned '
                 'tree are listed in known_findings.json (compact form: 8-bit clock, 16-bit move number; makeMove keeps an illegal en-passant square). Right level: "after any history the '
                 'incremental value equals the recomputed one" holds iff every mutator updates every derived attribute consistently - a '
-                'finite set of structural obligations that cover every history, where a random walk samples. (10) one-argument setters of Position store their argument unchanged. (11) makeSEEMove / unMakeSEEMove remove and restore the same en-passant victim, evaluated for every mover piece and every outcome of the opaque comparisons. (12) the normaliser TextIO::fixupEPSquare keeps an en-passant square exactly for a legal move of the mover\'s pawn to it (all 12 pieces x 2 destinations), scans legal moves only and clears the square otherwise.',
+                'finite set of structural obligations that cover every history, where a random walk samples. (10) one-argument setters of Position store their argument unchanged. (11) makeSEEMove / unMakeSEEMove remove and restore the same en-passant victim, evaluated for every mover piece and every outcome of the opaque comparisons. (12) the normaliser TextIO::fixupEPSquare keeps an en-passant square exactly for a legal move of the mover\'s pawn to it (all 12 pieces x 2 destinations), scans legal moves only and clears the square otherwise. (13) each take-back reads the mover\'s colour: the parity of side-to-move flips in the make function, flips before the read in the take-back and negations of the value read is even (makeMove/unMakeMove and makeMoveB/unMakeMoveB).',
         'design_ref': 'DESIGN.md section 2, C02',
         'note': TB + ' Does not decide value-level equalities (hash equality of rule-equal positions beyond the en-passant normal form).',
         'technique': 'custom static analysis: write-set/effect analysis, colour-mirror and sibling agreement on CFG regions, dominance-based save/restore and pairing, constant evaluation over the material polytope',
@@ -66,7 +66,7 @@ CLAIMED = {
                 'TT ply shift (store at p1, read at p2), the win/loss classification and the 16-bit range. This is a genuine necessary '
                 'condition of "mate N means mate in N": any disagreement between an encoder and a decoder shifts every announced '
                 'distance. Second clause (K3 typestate): a score found by searching after a null move never leaves negaScout (return, hash store, search-tree info) unless it was shown not to be a win score or replaced by a non-win bound. Right level for the first clause: a finite arithmetic agreement; that a reported mate exists at all is game-tree '
-                'semantics and is not claimed. Added clauses (4) bound-type discipline of adopted entry scores and isCutOff, (5) ply-shift codec and decode / re-store ply agreement (shared with C08). (6) every hash store of negaScout happens only in an unrestricted search. (7) every forward-pruning skip in negaScout\'s move loop requires a non-losing running maximum (!isLoseScore(best)), so a node never reports \'mated\' with unsearched quiet defences. (8) a move deferred by the ABDADA first pass (marked BUSY - reduction) is not skipped by the second pass, for every reduction 0..15. (9) a recursive call that can be reached with the exclusive-probe request still set is followed directly by the BUSY test on its result; every other recursive call is made with the request cleared.',
+                'semantics and is not claimed. Added clauses (4) bound-type discipline of adopted entry scores and isCutOff, (5) ply-shift codec and decode / re-store ply agreement (shared with C08). (6) every hash store of negaScout happens only in an unrestricted search. (7) every forward-pruning skip in negaScout\'s move loop requires a non-losing running maximum (!isLoseScore(best)), so a node never reports \'mated\' with unsearched quiet defences. (8) a move deferred by the ABDADA first pass (marked BUSY - reduction) is not skipped by the second pass, for every reduction 0..15. (9) a recursive call that can be reached with the exclusive-probe request still set is followed directly by the BUSY test on its result; every other recursive call is made with the request cleared. (10) = C12.1 an installed on-demand table has its region reserved on every exit of updateTB / clear / reSize.',
         'design_ref': 'DESIGN.md section 2, C04',
         'note': TB + ' Decides only the encoding agreement, not the existence of the announced mates nor the soundness of pruning near mate scores.',
         'technique': 'custom static analysis: exhaustive constant evaluation of extracted expression trees over a finite domain (encoder/decoder composition)',
@@ -84,7 +84,7 @@ CLAIMED = {
                 'including ponder + ponderhit (found and fixed defect D11); (13) lock discipline of the session output stream: every '
                 'insertion holds one common mutex, which is never re-acquired or held across a wait (found and fixed defect D10). '
                 'Right level: these are exactly the failure shapes the property names (crash before initialisation, two/zero '
-                'bestmoves, output after bestmove), and they are visible in the shape of the code for all histories at once. C05.5 now decides that every way out of the protocol loop stops a running search (state flow); (14) every strength-limiting parameter forces a single search thread. (15) wait loops poll with a handler that counts the acknowledgements (shared with C10.10). (16) = C10.11: the two computations of `infinite` agree. (17) = C10.12 isready never blocks on an engine thread that is holding its answer.',
+                'bestmoves, output after bestmove), and they are visible in the shape of the code for all histories at once. C05.5 now decides that every way out of the protocol loop stops a running search (state flow); (14) every strength-limiting parameter forces a single search thread. (15) wait loops poll with a handler that counts the acknowledgements (shared with C10.10). (16) = C10.11: the two computations of `infinite` agree. (17) = C10.12 isready never blocks on an engine thread that is holding its answer. (18) = C03.6 the MultiPV count that indexes the root list is clamped to that list.',
         'design_ref': 'DESIGN.md section 2, C05',
         'note': TB + ' Assumes: bad_alloc from ordinary allocation and the embedded-network integrity error are out of scope (named exemptions).',
         'technique': 'custom static analysis: null typestate dataflow + exception-flow + must-pass-through/who-may-call over clang AST/CFG/call graph',
@@ -162,7 +162,7 @@ CLAIMED = {
                 'ack->poll until acknowledged, quit->poll until acknowledged, flag-sensitive "a search that ran is stopped"; (6) a wake-up '
                 'consumed by the engine thread\'s inner wait loop is re-armed or pending options are handled before it sleeps again; (7) the completion-flag typestate of optionsSetFinished (shared with C09.4). Right '
                 'level: these are the necessary structural conditions of "no lost wake-up / no stale result" for every interleaving; the '
-                'composed liveness property itself is model-checking territory and is not claimed. Added clause (9): the upward acknowledgement is sent only under a test of everything has<X>Ack() depends on. (10) agreement between acknowledgement wait loops and the handlers they poll with. (11) startSearch and ponderHit compute `infinite` from the same conjuncts. (12) a blocking wait of the protocol thread on the engine thread (waitStop / waitOptionsSet) is reached only with both hold flags cleared or when no search object exists: no circular wait with the engine thread\'s `while (*ponder || *infinite)`.',
+                'composed liveness property itself is model-checking territory and is not claimed. Added clause (9): the upward acknowledgement is sent only under a test of everything has<X>Ack() depends on. (10) agreement between acknowledgement wait loops and the handlers they poll with. (11) startSearch and ponderHit compute `infinite` from the same conjuncts. (12) a blocking wait of the protocol thread on the engine thread (waitStop / waitOptionsSet) is reached only with both hold flags cleared or when no search object exists: no circular wait with the engine thread\'s `while (*ponder || *infinite)`. (13) createWorkers returns only after every helper it constructed - new slot or replaced slot - has signalled initialized.',
         'design_ref': 'DESIGN.md section 2, C10',
         'note': TB + ' Does not decide absence of deadlock / lost wake-up over all interleavings of the composed protocol.',
         'technique': 'custom static analysis: lock-set dataflow, condition-variable discipline, must-pass-through / loop-shape rules on the CFG, sibling agreement of purge predicates',
@@ -241,7 +241,7 @@ CLAIMED = {
                 'getMove; the built-in book promotion tables are inverse (constant evaluation over all codes); (3) a failed read zero-fills '
                 'exactly the bytes read before decoding, the binary search and the scan only touch indices inside the file, only entries '
                 'stored under the position key are offered. Right level: "for any file" quantifies over inputs; legality of the answer '
-                'follows from the validate-before-return structure for every file content. (4) the weight accumulator holds the largest total a file can produce and the random pick is defined for it (found and fixed defect D12). Added clause (5): file positions (entry count, indices, seek offset) are 64-bit quantities (found and fixed defect D15). (6) the weighted pick chooses entry k for exactly weight(k) draws. (1, extended) the legality filter of getBookMove is executed unconditionally.',
+                'follows from the validate-before-return structure for every file content. (4) the weight accumulator holds the largest total a file can produce and the random pick is defined for it (found and fixed defect D12). Added clause (5): file positions (entry count, indices, seek offset) are 64-bit quantities (found and fixed defect D15). (6) the weighted pick chooses entry k for exactly weight(k) draws. (1, extended) the legality filter of getBookMove is executed unconditionally. (7) the scan of the entries stored under a key ends only on a key mismatch or the end of the file: with equal keys no early exit is reachable, whatever weight or move the entry holds.',
         'design_ref': 'DESIGN.md section 2, C18',
         'note': TB + ' Assumes the legal move generator is correct (C01). Does not decide that a corrupt file never yields a legal-but-wrong move.',
         'technique': 'custom static analysis: validated-candidate typestate with per-iteration flag reset, dominance, inverse switch tables, constant evaluation, index-bound structure',
@@ -256,7 +256,7 @@ CLAIMED = {
                 'completeness of the path-error recompute set - the fields computePathError reads of the node itself / of its parents decide '
                 'which nodes updateScores must schedule when a recompute call reports a change (found and fixed defect D9). Right level: these are the structural necessary conditions of "links mutually '
                 'consistent", "save/reload reproduces the book" and "changes propagate"; the fixed-point equations themselves are '
-                'value-level over a DAG and are not claimed. Added: (2) the reader of the append-only backup log lets a later record replace the earlier one; (6) depth propagation completeness. (7) the parents of the node updateScores is called on are always recomputed. (8) every change of a pending mark is followed by updateScores (directly or through a function that always recomputes) on every path.',
+                'value-level over a DAG and are not claimed. Added: (2) the reader of the append-only backup log lets a later record replace the earlier one; (6) depth propagation completeness. (7) the parents of the node updateScores is called on are always recomputed. (8) every change of a pending mark is followed by updateScores (directly or through a function that always recomputes) on every path. (9) every write of a node\'s search result (score or best non-book move) is followed by updateScores on every path.',
         'design_ref': 'DESIGN.md section 2, C19',
         'note': TB + ' Does not decide that scores are at the fixed point of the negamax / path-error / cost equations.',
         'technique': 'custom static analysis: call pairing on the CFG, who-may-write, sibling agreement of serialiser argument lists, snapshot/compare agreement',
